@@ -25,8 +25,8 @@ next to it). `meta.json` of each records what it needs to manifest and what I
 ran. All of them are caught now - at the quick budget on an idle machine, with
 two qualifications: on a loaded machine (several checks at once) the race-detector
 build of C13 needs two to five times the budget, and `agent-c13c` (a race that needs
-a worker parked inside one particular inner-join iteration) takes about 150 s of
-budget; %d were missed by the first
+a worker parked inside one particular inner-join iteration) and `agent-c08i` (a
+cancellation inside the Fix of one ALTER TABLE DROP) take 90-150 s of budget; %d were missed by the first
 version of the respective check and led to a strengthening that is described
 in the `history` field of their `meta.json` and summarised in §11.
 
